@@ -493,6 +493,11 @@ impl MasterSession {
             return Err(TaskError::RejectedByIin2(response.header.iin));
         }
 
+        // the response is accepted: confirm it if the outstation requested confirmation
+        if response.header.control.con {
+            self.confirm_solicited(io, destination, seq, writer).await?;
+        }
+
         Ok(Some(response))
     }
 
